@@ -79,6 +79,19 @@ def run(chk):
                     env2 = dict(env, key=(pipegen.KEY if rng.chance(1, 2) else None))
                     runner.run_case({"env": env2, "caller": caller, "dest": e2e.WS, "label": "ws", "req": req, "plan": None,
                                      "timeout": 20.0})
+        # a host that drains a legal large upload slowly (longer than any 10 s budget): the upload is still relayed whole
+        slow = [("PUT", "/vmAgentLog", 16 << 20, 1300000, False)]
+        if chk.tier == "thorough":
+            slow += [("POST", "/machine/?comp=telemetrydata", 64 << 20, 5000000, True), ("PUT", "/vmAgentLog", LARGE, 8000000, False)]
+        for (method, target, size, rate, chunked) in slow:
+            body = big_body(size, rng)
+            req = {"method": method, "target": target, "headers": [(b"Host", b"h"), (b"x-verif-drain", str(rate).encode())],
+                   "body": body, "chunked": ([1 << 20] * (size >> 20) if chunked else None)}
+            t0 = time.time()
+            runner.run_case({"env": env, "caller": caller, "dest": e2e.WS, "label": "ws", "req": req, "plan": None,
+                             "timeout": 90.0, "nomodel": True})
+            chk.count("slow_host_upload")
+            chk.coverage.setdefault("slow_host_seconds", []).append(round(time.time() - t0, 1))
         if chk.tier == "thorough":
             # the 100 MiB class (streamed through the real listener)
             for (method, target) in EXEMPT[:2] + EXEMPT[2:3]:
@@ -88,7 +101,7 @@ def run(chk):
                         req = {"method": method, "target": target, "headers": [(b"Host", b"h")], "body": body,
                                "chunked": ([1 << 20] * 101 if chunked else None)}
                         runner.run_case({"env": env, "caller": caller, "dest": e2e.WS, "label": "ws", "req": req, "plan": None,
-                                         "timeout": 120.0})
+                                         "timeout": 120.0, "nomodel": True})
         runner.finish(oracle)
         chk.sample(runner.describe(runner.observations[3]))
         chk.sample(runner.describe(runner.observations[-1]))
@@ -101,4 +114,6 @@ def run(chk):
                             "method/URL pairs (case variants) for the 100 KiB class; the 100 MiB class is exercised in the thorough tier; "
                             "distinct (method,target,length,style)")
     chk.coverage["exhaustive"] = False
+    chk.assumptions += ["bodies of 16 MiB and more (slow-host uploads, the 100 MiB class) are judged by the property oracle alone: the "
+                        "list-based model is not executed on them; limits_are_spec ties the 100 MiB constant to the code"]
     chk.assumptions += ["quick tier relies on the generated-fact obligation limits_are_spec for the 100 MiB limit (exercised e2e only in thorough)"]
